@@ -100,6 +100,11 @@ func (p *ProofU) reconstructUcommit(pk *gabikeys.PublicKey) (*big.Int, error) {
 	Ucommit.Mul(Ucommit, R0s).Mod(Ucommit, pk.N)
 
 	for i, miUserResponse := range p.MUserResponses {
+		// Index 0 is the secret key, whose response is SResponse: a second response for that base
+		// would allow proofs about different secrets to be made to look linked.
+		if i <= 0 || i >= len(pk.R) || miUserResponse == nil {
+			return nil, errors.New("invalid index in random blind attribute responses")
+		}
 		Rimi, err := common.ModPow(pk.R[i], miUserResponse, pk.N)
 		if err != nil {
 			return nil, err
